@@ -1,5 +1,5 @@
 """Check context: evidence, findings, verdict printing, harness batch running."""
-import fnmatch, hashlib, json, os, re, shutil, sys, time
+import fnmatch, hashlib, json, os, re, shutil, subprocess, sys, time
 
 from . import build as B
 from . import tlc as T
@@ -144,6 +144,35 @@ class Ctx:
             if artefact_text:
                 f.write(artefact_text)
         self.violations.append({"key": key, "what": what, "replay": path})
+
+    def build_or_probe(self, probes, *a, **kw):
+        """build.build(*a, **kw); when the harness does not compile against the tree, find out whether a PUBLIC API member
+        named by the property no longer instantiates.  probes: [(label, prelude, statement)] - each is compiled alone
+        (-fsyntax-only) as `prelude; void probe() { statement; }`.  A failing probe is a violation of the property
+        (an operation of its quantifier cannot even be expressed); if every probe compiles, the failure is the harness's
+        own business (for example a private member it looks at was renamed) and stays an infrastructure error."""
+        try:
+            return B.build(*a, **kw)
+        except B.BuildError as ex:
+            failed = []
+            # control first: the prelude alone has to compile, otherwise the probes prove nothing
+            for label, prelude, stmt in [("control", probes[0][1], ";")] + list(probes) if probes else []:
+                src = os.path.join(self.work, "probe_%s.cpp" % re.sub(r"[^A-Za-z0-9_]+", "_", label))
+                with open(src, "w") as f:
+                    f.write('#include <new>\n#include <utility>\n' + prelude + "\nvoid probe() {\n" + stmt + "\n}\n")
+                r = subprocess.run([kw.get("compiler", "g++"), "-std=" + kw.get("std", "c++20"), "-fsyntax-only", "-w",
+                                    "-I", B.INCLUDE, src], stdout=subprocess.PIPE, stderr=subprocess.STDOUT, text=True)
+                if r.returncode != 0 and label == "control":
+                    raise
+                if r.returncode != 0:
+                    failed.append(label)
+                    self.report("%s/build/%s" % (self.pid, label),
+                                "a public operation the property quantifies over does not instantiate: " + label,
+                                artefact_text=stmt + "\n" + r.stdout[-3000:])
+            if not failed:
+                raise
+            self.notes.append("harness build failed; API probes that do not compile: %s" % failed)
+            return None, False
 
     def finish(self):
         cov = self.cov
